@@ -67,7 +67,11 @@ def check(seed, props=None):
         if not mutate.apply_patch_copy(os.path.join(seed, "patch.diff"), root):
             return {"error": "patch does not apply"}
         props = props or mutate.all_props()
-        res = mutate.run_checks(root, props, os.path.join(tempfile.gettempdir(), "lsv-work-seed-" + _h.sha1(seed.encode()).hexdigest()[:8]))
+        work = os.path.join(tempfile.gettempdir(), "lsv-work-seed-" + _h.sha1(seed.encode()).hexdigest()[:8])
+        try:
+            res = mutate.run_checks(root, props, work)
+        finally:
+            shutil.rmtree(work, ignore_errors=True)
         return {p: r for p, r in res.items()}
     finally:
         shutil.rmtree(root, ignore_errors=True)
